@@ -264,7 +264,7 @@ def run_sim(ctx, sd, exe, q):
            confs="ConfsFull", peers='"none", "eligible", "jailed", "bad"', funds="FundsB", nums="0, 1, 2, 3",
            auth="TRUE, FALSE", maxnj=3, rest=sim_rest)
     beh2 = ctx.path("sim.ndjson")
-    ctx.tlc(sd, "MC_Staking", "sim.cfg", simulate=20 if q else 600, depth=40, timeout=1800, behaviours_out=beh2, count=False)
+    ctx.tlc(sd, "MC_Staking", "sim.cfg", simulate=10 if q else 600, depth=40, timeout=1800, behaviours_out=beh2, count=False)
     mm2 = ctx.path("mismatch2.ndjson")
     h2 = ctx.vh(exe, ["replay", beh2, mm2], timeout=1800)
     note_ok_actions(ctx, h2)
@@ -279,7 +279,7 @@ def run_sim(ctx, sd, exe, q):
 def run_rv(ctx, sd, exe, q):
     # ---- R3' the staking SC reached the production way: wallets -> real validator SC -> ExecuteOnDestContext -> staking SC
     tr = os.path.join(sd, "trace.ndjson")
-    nt, ln, nk = (40, 60, 6) if q else (800, 80, 6)
+    nt, ln, nk = (30, 60, 6) if q else (800, 80, 6)
     rv = ctx.vh(exe, ["recordv", ctx.seed, nt, ln, nk, tr])
     st = validate(ctx, sd, tr, nk, int(rv.stats.get("events", 0)),
                   "random history through the real validator SC", obs_only=True)
@@ -291,7 +291,7 @@ def run_rv(ctx, sd, exe, q):
 def run_r3(ctx, sd, exe, q):
     # ---- R3 random real histories validated by TLC
     tr = os.path.join(sd, "trace.ndjson")
-    nt, ln, nk = (80, 60, 6) if q else (1200, 80, 6)
+    nt, ln, nk = (60, 60, 6) if q else (1200, 80, 6)
     r3 = ctx.vh(exe, ["record", ctx.seed, nt, ln, nk, tr])
     st = validate(ctx, sd, tr, nk, int(r3.stats.get("events", 0)), "random history on the real staking contract")
     if st in ("accepted", "drift"):
